@@ -26,6 +26,12 @@ ACCUMULATORS = {"Transform": {"doc", "steps", "docs", "mapping"}, "Mapping": {"m
 PRIVATE_DEEP = {
     ("ParseContext.add_pending_mark", "self.top.pending_marks"),     # `top` is the parser's own NodeContext
     ("Fitter.place_nodes", "self.frontier[...].match"),               # frontier entries belong to one Fitter
+    ("Fitter.open_frontier_node", "self.frontier[...].match"),        # the same, through the local `top`
+    # Schema.__init__ fills in the NodeType / MarkType objects that NodeType.compile / MarkType.compile created for it
+    ("Schema.__init__", "self.nodes[...].content_match"),
+    ("Schema.__init__", "self.nodes[...].inline_content"),
+    ("Schema.__init__", "self.nodes[...].mark_set"),
+    ("Schema.__init__", "self.marks.values().excluded"),
 }
 
 PRIVATE_STATE = {
@@ -238,6 +244,12 @@ def make_site(rel, fi, recv, op, lineno):
     return {"key": key, "cls": cls[0], "why": cls[1], "line": lineno}
 
 
+def _norm_subs(d):
+    """`self.nodes[prop]` -> `self.nodes[...]` (the normal form receiver_repr uses)"""
+    import re
+    return re.sub(r"\[[^\[\]]*\]", "[...]", d)
+
+
 def param_class(fi, name):
     """annotation (class name) of parameter `name` of fi or an enclosing function"""
     cur = fi
@@ -300,6 +312,12 @@ def classify(rel, fi, recv, rr, base, op, defs, fresh, is_param):
         if fresh:
             return ("fresh", "every definition of the receiver in this function is a fresh container")
         if fi.cls in PRIVATE_STATE and all(d.startswith(("self.", "iter:self.")) for d in defs):
+            # `x = self.f; x.g = …` is `self.f.g = …` spelled with a local: a write *into the object the field refers to*
+            # (the same rule as for the direct form above); `x[i] = …` / `x.append(…)` on an aliased own container stay private
+            hops = rr.replace("[...]", "").count(".")
+            if hops >= 1 and op in ("assign", "augassign", "del") and \
+                    not all((fi.qualname, _norm_subs(d.replace("iter:", "")) + rr[len(base):]) in PRIVATE_DEEP for d in defs):
+                return ("external", "write through a local alias of a field into an object the private state merely refers to")
             return ("private-state", PRIVATE_STATE[fi.cls] + " (local alias of its own state)")
         return ("external", "receiver may alias a value that was passed in or returned earlier")
     if is_param:
